@@ -33,4 +33,22 @@ CLAIMED = {
             "note": "Not decided: behaviour within 1e-12 of 0 and 1 in floating point."},
 }
 
+CLAIMED.update({
+    "C02": {"technique": "static: exhaustive None-ness enumeration; polynomial identities; loop summary (uninterpreted fix-point)",
+            "text": "The driving-force function is normalised in each of the four None-ness cells of the permeate parameters and compared with "
+                    "permeance*(feed - permeate partial pressure); the p=0/vacuum coincidence, the pressure identity and degree-1 homogeneity are "
+                    "identities on that form. The solver's fixed-point loop is summarised by one application of its body to a bound iterate and "
+                    "its guard, distance, update, start iterate, call-site agreement and final evaluation are decided on the summary.",
+            "note": "Decides the law and the structural necessary conditions of self-consistency; NOT decided: convergence, the numeric distance "
+                    "between returned and self-consistent composition, local contractivity."},
+    "C04": {"technique": "static: normal forms of ln(gamma); syntactic d/dx (Gibbs-Duhem as a rational identity); substitution; role permutation",
+            "text": "Gibbs-Duhem, pure-component limits, Raoult limit, relabelling symmetry, p_i = x_i*gamma_i*Psat_i and basis independence are "
+                    "decided as exact identities on the closed forms of both activity models, for all parameters, temperatures and compositions.",
+            "note": "UNIQUAC exact-zero guards (1e-5 substitution) are outside the open-interval domain. Known finding: UNIQUAC gamma_2 bracket."},
+    "C06": {"technique": "static: role permutation sigma on input/output normal forms; call-site equivariance (assume/guarantee)",
+            "text": "For 19 functions (thermodynamics, driving force, solver summary, helpers, ideal curve, ideal process models, curve "
+                    "construction, metrics, ideal selectivity) every output's normal form is compared with its image under the role permutation.",
+            "note": "Uninterpreted callees are assumed equivariant and are each checked where analysed. PSI is not claimed (not invariant by definition)."},
+})
+
 NOT_APPLICABLE = {}
